@@ -414,4 +414,30 @@ theorem covers_zero {it : Item} (hv : it.Valid) : it.covers 0 = false := by
   | port p => have := hv.1; simp [Item.covers]; omega
   | range a b => have := hv.1; simp [Item.covers]; omega
 
+/-- membership in the result of an `Option` `mapM` -/
+theorem mapM_some_mem {α β : Type} {f : α → Option β} : ∀ {l : List α} {r : List β}, l.mapM f = some r →
+    ∀ b, b ∈ r ↔ ∃ a ∈ l, f a = some b := by
+  intro l
+  induction l with
+  | nil => intro r h b; simp at h; subst h; simp
+  | cons a l ih =>
+    intro r h b
+    rw [List.mapM_cons] at h
+    cases hfa : f a with
+    | none => simp [hfa] at h
+    | some b0 =>
+      cases hl : l.mapM f with
+      | none => simp [hfa, hl] at h
+      | some bs =>
+        simp [hfa, hl] at h
+        subst h
+        simp [ih hl b, hfa]
+        constructor
+        · rintro (rfl | h)
+          · exact Or.inl rfl
+          · exact Or.inr h
+        · rintro (h | h)
+          · exact Or.inl h.symm
+          · exact Or.inr h
+
 end SSV.PortSet
